@@ -29,9 +29,12 @@ type FetchOptions struct {
 }
 
 func toMultihash(ctx context.Context, services coreiface.CoreAPI, log *IPFSLog) (cid.Cid, error) {
+	verifPoint(log, "tomultihash.enter")
 	if log.heads.Len() == 0 {
 		return cid.Undef, errmsg.ErrEmptyLogSerialization
 	}
+
+	verifPoint(log, "tomultihash.checked")
 
 	return log.io.Write(ctx, services, log.ToJSONLog(), nil)
 }
